@@ -80,7 +80,7 @@ class NInst(Inst):
 
 HOF_PREFIX = ("core::option::Option::", "core::result::Result::", "core::iter::", "<core::iter::", "core::ops::function::",
               "<core::slice::iter::", "core::slice::", "<alloc::collections::btree::map::", "<alloc::vec::", "<core::option::", "<core::ops::range::",
-              "<core::array::", "core::array::", "<std::collections::hash::map::", "<&mut ", "<core::result::", "core::sync::atomic::Atomic::<", "core::ops::try_trait::", "<core::ops::try_trait::", "core::bool::")
+              "<core::array::", "core::array::", "<std::collections::hash::map::", "<&mut ", "<core::result::", "core::sync::atomic::Atomic::<", "core::ops::try_trait::", "<core::ops::try_trait::", "core::bool::", "core::task::poll::Poll::", "<core::task::poll::")
 WS_CLOSURE_RE = __import__("re").compile(r"\{closure@<?signal_hook")
 FN_ITEM_RE = __import__("re").compile(r"fn\(.*\)( -> [^{]*)? \{")
 import re as _re
